@@ -394,6 +394,15 @@ func (g *world) pickInputs(st *bstate, H uint64) []uinfo {
 	var ins []uinfo
 	take := func(l *[]uinfo) {
 		i := g.r.Intn(len(*l))
+		if g.kind == "down" && g.r.Chance(60) {
+			// prefer outputs with a maturity rule (coinbase, vote): un-spending them is what C25 is about
+			for j, u := range *l {
+				if u.cb || u.vote {
+					i = j
+					break
+				}
+			}
+		}
 		ins = append(ins, (*l)[i])
 		*l = append((*l)[:i:i], (*l)[i+1:]...)
 	}
@@ -767,7 +776,7 @@ func RunCase(e *Env, c *Case, base string) (*Result, error) {
 		if _, err := wn.N.Process(bi.Block); err != nil {
 			return nil, fmt.Errorf("trunk: %v", err)
 		}
-		if err := wn.Sync(20 * time.Second); err != nil {
+		if err := wn.Sync(true, 20*time.Second); err != nil {
 			return nil, fmt.Errorf("trunk: %v", err)
 		}
 	}
@@ -803,13 +812,9 @@ func RunCase(e *Env, c *Case, base string) (*Result, error) {
 		cur = np
 		d.Height = wn.N.Chain.BestBlockHeight()
 		// the updater is woken only when the best height exceeds the wallet's
-		if d.Height > before.WorkHeight {
-			if err := wn.Sync(20 * time.Second); err != nil {
-				fail24("class=wallet-not-following: after delivery %d (block %d): %v", di, l, err)
-				fail25("class=wallet-not-following: after delivery %d (block %d): %v", di, l, err)
-			}
-		} else {
-			time.Sleep(400 * time.Microsecond)
+		if err := wn.Sync(d.Height > before.WorkHeight, 20*time.Second); err != nil {
+			fail24("class=wallet-not-following: after delivery %d (block %d): %v", di, l, err)
+			fail25("class=wallet-not-following: after delivery %d (block %d): %v", di, l, err)
 		}
 		after := wn.W.GetWalletStatusInfo()
 		d.Synced = after.BestHash == *bestHash
@@ -875,8 +880,13 @@ func RunCase(e *Env, c *Case, base string) (*Result, error) {
 					if ent.Type == storage.VoteUTXOType {
 						kind = "vote output"
 					}
-					if ent.Type == storage.VoteUTXOType && r.Valid == ent.BlockHeight+pend(ent.BlockHeight) && pend(d.Height+1) != pend(ent.BlockHeight) {
-						fail25("class=vote-lock-schedule: after delivery %d the keeper offers vote output %d (created at %d, valid height %d = creation + lock(%d) = %d) at height %d; applySpendUtxo refuses it at height %d (lock at the spending height = %d)", di, ol, ent.BlockHeight, r.Valid, ent.BlockHeight, pend(ent.BlockHeight), d.Height, d.Height+1, pend(d.Height+1))
+					// the known finding: the record's valid height is a height at which the wallet's own rule
+					// (creation + lock(creation)) or consensus (a veto at that height was legal: restored by a
+					// detach) unlocks the vote output, and the lock at the spending height is a different one
+					byWallet := r.Valid == ent.BlockHeight+pend(ent.BlockHeight) && pend(d.Height+1) != pend(ent.BlockHeight)
+					byVeto := ent.BlockHeight+pend(r.Valid) <= r.Valid && pend(d.Height+1) != pend(r.Valid)
+					if ent.Type == storage.VoteUTXOType && (byWallet || byVeto) {
+						fail25("class=vote-lock-schedule: after delivery %d the keeper offers vote output %d (created at %d, valid height %d, lock(%d) = %d, lock(%d) = %d) at height %d; applySpendUtxo refuses it at height %d (lock at the spending height = %d)", di, ol, ent.BlockHeight, r.Valid, ent.BlockHeight, pend(ent.BlockHeight), r.Valid, pend(r.Valid), d.Height, d.Height+1, pend(d.Height+1))
 					} else {
 						fail25("class=immature-reported-mature: after delivery %d the keeper offers %s %d (%s, created at %d, valid height %d) at height %d; applySpendUtxo refuses it at height %d", di, kind, ol, recKey(r), ent.BlockHeight, r.Valid, d.Height, d.Height+1)
 					}
@@ -932,7 +942,7 @@ func (g *world) freshOracle(wn *WalletNode, wpath []int, list []Rec, reported ma
 		fail24("class=fresh-node-refuses-chain: best block differs")
 		return nil
 	}
-	if err := fn.Sync(20 * time.Second); err != nil {
+	if err := fn.Sync(true, 20*time.Second); err != nil {
 		fail24("class=wallet-not-following: fresh wallet: %v", err)
 		return nil
 	}
